@@ -6,7 +6,11 @@ use crate::eg::*;
 use crate::lang::*;
 use slotted_egraphs::*;
 
-fn consistency(h: &Hist) -> Sx {
+fn consistency(h: &Hist) -> Sx { consistency_g(&h.eg, &h.handles) }
+
+fn consistency_g<A: Analysis<LV>>(eg: &EGraph<LV, A>, handles: &[AppliedId]) -> Sx {
+    struct H<'a, A: Analysis<LV>> { eg: &'a EGraph<LV, A>, handles: &'a [AppliedId] }
+    let h = H { eg, handles };
     let r = std::panic::catch_unwind(std::panic::AssertUnwindSafe(|| -> Result<(), String> {
         h.eg.check();
         let ids = h.eg.ids();
@@ -23,7 +27,7 @@ fn consistency(h: &Hist) -> Sx {
                 if let Some(j) = seen.insert(sh, *i) { if j != *i { return Err(format!("one e-node belongs to the live classes {} and {}", j.0, i.0)); } }
             }
         }
-        for a in &h.handles {
+        for a in h.handles {
             let f = h.eg.find_applied_id(a);
             let ff = h.eg.find_applied_id(&f);
             if f != ff { return Err("canonicalising an invocation twice differs from canonicalising it once".to_string()); }
@@ -37,18 +41,37 @@ fn consistency(h: &Hist) -> Sx {
     }
 }
 
-fn step_obs(h: &Hist) -> Sx {
+fn step_obs(h: &Hist) -> Sx { step_obs_g(&h.eg, &h.handles) }
+
+fn step_obs_g<A: Analysis<LV>>(eg: &EGraph<LV, A>, handles: &[AppliedId]) -> Sx {
+    struct H<'a, A: Analysis<LV>> { eg: &'a EGraph<LV, A>, handles: &'a [AppliedId] }
+    let h = H { eg, handles };
     let r = std::panic::catch_unwind(std::panic::AssertUnwindSafe(|| {
-        let m = eq_matrix(h).map_err(|(k, l)| format!("{} {}", k, l)).unwrap();
+        let n = h.handles.len(); let mut m = String::new();
+        for i in 0..n { for j in 0..n { m.push(if h.eg.eq(&h.handles[i], &h.handles[j]) { '1' } else { '0' }); } }
         let sl: Vec<Sx> = h.handles.iter().map(|a| { let f = h.eg.find_applied_id(a); let mut s: Vec<Slot> = f.slots().into_iter().collect(); s.sort(); set_sx(s.into_iter()) }).collect();
-        lst(vec![sym("st"), progress_sx(&h.eg), sym(&format!("b{}", m)), lst(sl), lst(vec![sym("nodes"), num(h.eg.total_number_of_nodes() as u64)])])
+        let p = h.eg.progress();
+        let prog = lst(vec![sym("prog"), num(p.number_of_classes as u64), num(p.number_of_live_classes as u64), num(p.sum_of_slots as u64), num(p.sum_of_symmetries as u64)]);
+        lst(vec![sym("st"), prog, sym(&format!("b{}", m)), lst(sl), lst(vec![sym("nodes"), num(h.eg.total_number_of_nodes() as u64)])])
     }));
     match r { Ok(x) => x, Err(_) => { let (loc, msg) = take_panic().unwrap_or_default(); lst(vec![sym("err"), sym(panic_kind(&msg)), sym(&loc.replace(' ', "_").replace("/repo/", ""))]) } }
+}
+
+fn run_an<A: crate::eg14::An>(c: &Sx) -> Sx {
+    let mut steps = vec![sym("steps")];
+    let mut cons = vec![sym("cons")];
+    let h = crate::eg14::run_history_a::<A>(c, |h, _| { let o = step_obs_g(&h.eg, &h.handles); let k = consistency_g(&h.eg, &h.handles); h.per_op.push((o, k)); });
+    for (o, k) in &h.per_op { steps.push(o.clone()); cons.push(k.clone()); }
+    if let Some((_oi, kind, loc)) = &h.err { steps.push(lst(vec![sym("err"), sym(kind), sym(&loc.replace(' ', "_").replace("/repo/", ""))])); }
+    lst(vec![sym("obs"), lst(steps), lst(cons)])
 }
 
 pub fn run_case(case: &Sx) -> Sx {
     let c = case.clone();
     let r = in_fresh_thread(move || {
+        // (an K) as 6th element: the same history on an e-graph that carries an analysis (0 MinSize, otherwise Depth)
+        let an: Option<u64> = c.as_lst().get(5).and_then(|e| match e { Sx::Lst(l) if l.len() == 2 && l[0].as_sym() == "an" => Some(l[1].as_num()), _ => None });
+        match an { Some(0) => return run_an::<crate::eg14::MinSize>(&c), Some(_) => return run_an::<crate::eg14::Depth>(&c), None => {} }
         let mut steps = vec![sym("steps")];
         let mut cons = vec![sym("cons")];
         let h = run_history(&c, |h, _| { let o = step_obs(h); let k = consistency(h); h.per_op.push(lst(vec![o, k])); });
@@ -62,7 +85,36 @@ pub fn run_case(case: &Sx) -> Sx {
 pub fn main(a: &Args) {
     match a.extra.get(0).map(|s| s.as_str()) {
         Some("gen") => {
-            let lines: Vec<String> = crate::eg::gen(a).into_iter().map(|l| l.replacen("(eg ", "(egs ", 1)).collect();
+            let mut lines: Vec<String> = crate::eg::gen(a).into_iter().map(|l| l.replacen("(eg ", "(egs ", 1)).collect();
+            if a.extra.iter().any(|x| x == "an") {
+                // the same histories on e-graphs that carry an analysis; half of them get a parent that uses both classes of a
+                // later union of classes of different size (either may survive)
+                lines = lines.into_iter().enumerate().map(|(ci, l)| {
+                    let mut rng = Rng::new(a.seed ^ 0xa11, ci as u64);
+                    let mut c = Sx::parse(&l);
+                    if let Sx::Lst(v) = &mut c {
+                        if rng.chance(1, 2) {
+                            let na = lst(vec![sym("a"), num(0), lst(vec![sym("m")])]);
+                            let un = |t: Sx| lst(vec![sym("rt"), lst(vec![sym("nd"), num(6), na.clone()]), t]);
+                            let hh = |x: Sx, y: Sx| lst(vec![sym("rt"), lst(vec![sym("nd"), num(7), na.clone(), na.clone()]), x, y]);
+                            let x = gen_term(&mut rng, 0, &[1, 2]);
+                            let small = un(x.clone());
+                            let big = hh(un(un(x.clone())), x.clone());
+                            let parent = hh(small.clone(), big.clone());
+                            let nadd = v[3].as_lst()[1..].iter().filter(|o| o.head() == "add").count() as u64;
+                            let base = (v[2].as_lst().len() - 1) as u64;
+                            if let Sx::Lst(t) = &mut v[2] { t.push(small); t.push(big); t.push(parent); }
+                            if let Sx::Lst(o) = &mut v[3] {
+                                for k in 0..3 { o.push(lst(vec![sym("add"), num(base + k)])); }
+                                if rng.chance(1, 2) { o.push(lst(vec![sym("union"), num(nadd), num(nadd + 1)])); } else { o.push(lst(vec![sym("union"), num(nadd + 1), num(nadd)])); }
+                                o.push(lst(vec![sym("add"), num(base + 2)]));
+                            }
+                        }
+                        v.push(lst(vec![sym("an"), num(*rng.pick(&[0u64, 2]))]));
+                    }
+                    c.to_string()
+                }).collect();
+            }
             write_lines(&format!("{}/cases.txt", a.out), &lines);
         }
         Some("run") => {
